@@ -152,6 +152,34 @@ def run(ctx):
                         else:
                             st = "unknown"
                         res.add("D-DISTINCT", f, norm(n), "canonical-element", st, "" if st == "ok" else f"the set that decides when enough hyperedges were drawn holds `{norm(e)[:80]}`, the nodes in drawing order: the same node set drawn in two orders is counted twice and later collapses into one hyperedge, so fewer distinct hyperedges than requested are returned", loc(v.fi, n))
+            # a drawing loop that runs on a COUNTER while the draws go into a set: the counter must be taken from the size of the
+            # set (draws that repeat an element already held collapse, so counting draws over-counts)
+            for w in walk_no_nested(v.fi.node):
+                if not isinstance(w, (ast.While, ast.For)):
+                    continue
+                sets_grown = []
+                for n in ast.walk(w):
+                    if isinstance(n, ast.Call) and isinstance(n.func, ast.Attribute) and n.func.attr in ("add", "update") and isinstance(n.func.value, ast.Name):
+                        sets_grown.append((n.func.value.id, n))
+                    if isinstance(n, ast.AugAssign) and isinstance(n.op, ast.BitOr) and isinstance(n.target, ast.Name):
+                        sets_grown.append((n.target.id, n))
+                sets_grown = [(nm, n) for nm, n in sets_grown if isinstance(strip_none(v.kind_of_name(nm, n)) if hasattr(v, "kind_of_name") else None, St) or any(isinstance(a_, ast.Assign) and any(isinstance(t_, ast.Name) and t_.id == nm for t_ in a_.targets) and (norm(a_.value) == "set()" or isinstance(a_.value, (ast.Set, ast.SetComp))) for a_ in walk_no_nested(v.fi.node))]
+                if not sets_grown or not isinstance(w, ast.While):
+                    continue
+                tnames = {x.id for x in ast.walk(w.test) if isinstance(x, ast.Name)}
+                if any(isinstance(x, ast.Call) and norm(x.func) == "len" and x.args and isinstance(x.args[0], ast.Name) and x.args[0].id in {nm for nm, _ in sets_grown} for x in ast.walk(w.test)):
+                    continue
+                for n in ast.walk(w):
+                    if isinstance(n, ast.AugAssign) and isinstance(n.target, ast.Name) and n.target.id in tnames and isinstance(n.op, (ast.Sub, ast.Add)):
+                        found += 1
+                        snames = {nm for nm, _ in sets_grown}
+                        from_set = any(isinstance(x, ast.Call) and norm(x.func) == "len" and x.args and isinstance(x.args[0], ast.Name) and x.args[0].id in snames for x in ast.walk(v.inline(n.value)))
+                        recomputed = any(isinstance(a_, ast.Assign) and any(isinstance(t_, ast.Name) and t_.id == n.target.id for t_ in a_.targets) and any(isinstance(x, ast.Call) and norm(x.func) == "len" and x.args and isinstance(x.args[0], ast.Name) and x.args[0].id in snames for x in ast.walk(a_.value)) for a_ in ast.walk(w))
+                        # counted only when the draw is new: `if e not in edges: edges.add(e); missing -= 1`
+                        novel = any(any(isinstance(c_, ast.Compare) and len(c_.ops) == 1 and isinstance(c_.ops[0], (ast.NotIn, ast.In)) and isinstance(c_.comparators[0], ast.Name) and c_.comparators[0].id in snames for c_ in ast.walk(i_.test)) for i_ in v.enclosing_all(n, (ast.If,)))
+                        novel = novel or any(isinstance(x, (ast.If, ast.IfExp)) and any(isinstance(c_, ast.Compare) and isinstance(c_.ops[0], (ast.NotIn, ast.In)) and isinstance(c_.comparators[0], ast.Name) and c_.comparators[0].id in snames for c_ in ast.walk(x.test)) for x in ast.walk(w))
+                        st = "ok" if from_set or recomputed else ("unknown" if novel else "violation")
+                        res.add("D-DISTINCT", f, norm(n), "counter-from-set", st, "" if st == "ok" else f"the drawing loop runs on the counter `{n.target.id}`, advanced by `{norm(n.value)}`, while the draws are collected in the set `{sorted(snames)[0]}`: a draw that repeats a hyperedge already held is counted but adds nothing, so fewer distinct hyperedges than requested are returned", loc(v.fi, n))
             if not found:
                 res.unknown("D-DISTINCT", f, "while len(edges) < n: edges.add(...)", "canonical-element", "no counting set recognised", loc(v.fi, v.fi.node))
     with res.guard("D-SAMPLE (activity driven)"):
